@@ -2,6 +2,7 @@ package main
 
 import (
 	"fmt"
+	"go/ast"
 	"go/token"
 	"sort"
 	"strings"
@@ -167,6 +168,9 @@ func checkC13(c *Ctx) {
 						if src == cf {
 							isCode = true
 						}
+					}
+					if textual, known := fieldTextual[src]; known && !textual {
+						continue // a container the rule travelled through (rule lists, yaml nodes), not text
 					}
 					if !isCode && src != "yaml-scalar" && src != "yaml-key" && src != "SimpleRegoResult.Rego" && src != "AtomicStatement.Path" && src != "AtomicStatement.Variable" {
 						foreign = append(foreign, src)
@@ -391,5 +395,52 @@ func c13Placeholders(c *Ctx, te *taintEngine) {
 	}
 	if wrap == nil {
 		r.Unknown("C13.Q3", "sprintf-template", "", "no `message := sprintf(...)` template found in the generator")
+		return
+	}
+	// the argument list has one element per recorded variable, in order: the loop over Message.Variables binds and appends
+	// unconditionally (the parser emitted one %v per element, so a skipped or merged element shifts or starves the verbs)
+	fd, _ := wrap.Syntax().(*ast.FuncDecl)
+	if fd == nil || fd.Body == nil {
+		r.Unknown("C13.Q3", FuncKey(wrap)+"#one-binding-per-variable", "", "no syntax for the function that formats messages")
+		return
+	}
+	found := false
+	ast.Inspect(fd.Body, func(n ast.Node) bool {
+		rs, ok := n.(*ast.RangeStmt)
+		if !ok {
+			return true
+		}
+		sel, ok := ast.Unparen(rs.X).(*ast.SelectorExpr)
+		if !ok || sel.Sel.Name != "Variables" {
+			return true
+		}
+		found = true
+		var conditional []string
+		appends := 0
+		for _, st := range rs.Body.List {
+			switch x := st.(type) {
+			case *ast.IfStmt, *ast.SwitchStmt, *ast.TypeSwitchStmt, *ast.ForStmt, *ast.RangeStmt, *ast.BranchStmt, *ast.ReturnStmt, *ast.SelectStmt, *ast.GoStmt, *ast.DeferStmt:
+				conditional = append(conditional, fmt.Sprintf("%T", x))
+			case *ast.AssignStmt:
+				for _, rhs := range x.Rhs {
+					if call, ok := rhs.(*ast.CallExpr); ok {
+						if id, ok := call.Fun.(*ast.Ident); ok && id.Name == "append" {
+							appends++
+						}
+					}
+				}
+			}
+		}
+		ast.Inspect(rs.Body, func(m ast.Node) bool {
+			if bs, ok := m.(*ast.BranchStmt); ok {
+				conditional = append(conditional, bs.Tok.String())
+			}
+			return true
+		})
+		r.Check(len(conditional) == 0 && appends >= 2, "C13.Q3", FuncKey(wrap)+"#one-binding-per-variable", p.Pos(rs.Pos()), "every element of Message.Variables is bound and appended to the sprintf arguments, unconditionally and in order", "the loop over the message's variables skips, merges or reorders elements ("+strings.Join(conditional, ", ")+"): the %v verbs and the sprintf arguments no longer correspond one to one")
+		return true
+	})
+	if !found {
+		r.Unknown("C13.Q3", FuncKey(wrap)+"#one-binding-per-variable", p.Pos(fd.Pos()), "no loop over Message.Variables in the function that formats messages")
 	}
 }
